@@ -91,7 +91,7 @@ def ctor(repo: Repo, tier):
     """All constructor / writer interpretations.  Each sub-check is isolated: a construct outside the interpreted
     fragment in one function makes only the checks that need *that* function abstain (cc.errors)."""
     from sa.ctor_check import CtorChecker, check_generate_interactions, check_reciprocal
-    from sa.line_model import check_event_replay
+    from sa.line_model import check_event_replay, check_event_logs
     key = ("ctor", repo.digest(), tier)
     if key not in _cache:
         def make(R):
@@ -116,6 +116,7 @@ def ctor(repo: Repo, tier):
                     shapes=((1, 1), (1, 2), (2, 1)) if tier == "quick" else ((1, 1), (1, 2), (2, 1), (2, 2)))
             for cls in CLASSES:
                 guarded("C10.replay", check_event_replay, cc, cls)
+                guarded("C10.log", check_event_logs, cc, cls)
                 guarded("C10.rows", check_generate_interactions, cc, cls)
             return cc
         cc, R = escalate(make, tier)
